@@ -188,6 +188,16 @@ pub fn gen_c_header(r: &mut Rng) -> (String, Facts) {
             }
         }
     }
+    // arrays at the boundary of the built-in array impls (32 / 33 elements), in both dimensions,
+    // alone and embedded by value
+    if g.r.chance(1, 2) {
+        let name = g.plain("SB");
+        let (a, b) = *g.r.pick(&[(8u32, 64u32), (2, 33), (33, 2), (1, 32), (33, 33), (3, 40), (32, 32)]);
+        let t = g.scalar();
+        let _ = writeln!(g.out, "struct {name} {{ unsigned int count; {t} names[{a}][{b}]; }};\nstruct {name}_holder {{ struct {name} table; int flags; }};");
+        g.facts.features.push("array2-boundary");
+        g.structs.push(name);
+    }
     (g.out, g.facts)
 }
 
